@@ -13,10 +13,15 @@ CONSTANTS
   BIds = {"nob", "opt", "mutual"}
   XKs = {"", "b"}
   Rich = FALSE
+  Edges = FALSE
+  KSps = {"lower"}
+  MKs = {"k"}
   Depth = 1
   Emit = FALSE
   DropOnRebuild = FALSE
   CanonBang = TRUE
+  WideParse = FALSE
+  MapAsStruct = FALSE
 INVARIANTS InvNoPanic InvCompleteness InvSoundness InvValues InvHistoryIndependent InvClassesDisjoint
 VIEW GView
 CHECK_DEADLOCK FALSE
